@@ -140,61 +140,58 @@ def run(F, R, tier):
 
 def verify_jws_rules(F, r6):
     vfn = CORE + "::verify_jws"
-    vh = F.hir(vfn)
-    if r6.anchor(vh, vfn):
-        env = H.Env(vh)
-        tree, infos = L.exit_infos(vh)
-        succ = [e for e in infos if L.is_success_exit(e)]
-        for e in succ:
+    if r6.anchor(F.hir(vfn), vfn):
+        OPQ = r"Decoder::decode_compact_serialization$|JwsValidationItem::verify$|CoreDocument::resolve_method$|MethodData::(try_)?public_key_jwk$|VerificationMethod::data$"
+        tab = SR.Table(F, vfn, opaque=OPQ, rule=r6)
+        OPT = SR.param("options")
+        ONONCE, OMID = SR.fld("nonce", base=OPT), SR.fld("method_id", base=OPT)
+        n = n_cfg = n_kid = 0
+        for q in tab.ok():
+            n += 1
+            dec = [e for e in q.calls(r"decode_compact_serialization$") if q.succeeded(e) is True]
+            if not r6.require(len(dec) == 1, (vfn, "decode"), "decode_compact_serialization? does not precede success"):
+                continue
+            r6.require(sym.term(dec[0].args[1]) == SR.param("jws") and sym.term(dec[0].args[2]) == SR.param("detached_payload"), (vfn, "decode-args"), "the decoder is not given (jws, detached_payload)")
+            item = ("payload", dec[0].result.t, "Ok", 0)
+            # full nonce equality between options.nonce and the token's (protected) nonce
             ok = False
-            for c in e.conds:
-                if c[0] != "if":
-                    continue
-                rel = H.relation(c[1], env, lambda o: o == {("call", "identity_jose::jws::decoder::Decoder::decode_compact_serialization", "nonce")}, lambda o: o == {("param", "options", "nonce")}, accessors=ACC)
-                if rel and ((rel == "Ne" and c[2] is False) or (rel == "Eq" and c[2] is True)):
-                    ok = True
-                    r6.site("verify_jws: success guarded by validation_item.nonce() == options.nonce", H.strip(c[1]).get("sp"))
-            r6.require(ok, (vfn, "nonce-eq"), "verify_jws can succeed without the full nonce equality having been established", e.node.get("sp"))
-            oo = H.origins(e.node, env)
-            r6.require(oo == {("call", ITEM + "::verify")}, (vfn, "returns"), "verify_jws does not return the result of JwsValidationItem::verify: %s" % sorted(map(str, oo)))
-            tried = {H.fn_name(c) for c in e.tried}
-            r6.require(any(t and t.endswith("decode_compact_serialization") for t in tried), (vfn, "decode"), "decode_compact_serialization? does not precede")
-            r6.require(any(t and t.endswith("try_public_key_jwk") for t in tried), (vfn, "key"), "key extraction does not precede")
-        for c in H.calls(vh, re.compile(r"decode_compact_serialization$")):
-            a = H.call_args(c)
-            r6.require(H.origins(a[1], env) == {("param", "jws")} and H.origins(a[2], env) == {("param", "detached_payload")}, (vfn, "decode-args"), "the decoder is not given (jws, detached_payload)")
-        q = [n for n in H.walk(H.root(vh)) if n.get("k") == "let" and any(b[0] == "method_url_query" for b in H.pat_bindings(n["pat"]))]
-        if r6.require(len(q) == 1, (vfn, "query-def"), "method_url_query definition not found"):
-            m = H.strip(q[0]["init"])
-            if r6.require(m.get("k") == "match" and H.origins(m["scrut"], env) == {("param", "options", "method_id")}, (vfn, "query-table"), "the method query is not selected by a match on options.method_id"):
-                for arm in m["arms"]:
-                    ps = H.pat_str(arm["pat"])
-                    oo = H.origins(arm["body"], env, accessors=ACC)
-                    r6.site("method query (%s) ← %s" % (ps, sorted(map(str, oo))), arm["body"].get("sp"))
-                    if ps == "Some(_)":
-                        r6.require(only(oo, "param", "options", "method_id"), (vfn, "query-some"), "configured method id not used")
-                    elif ps == "None":
-                        r6.require(oo == {("call", "identity_jose::jws::decoder::Decoder::decode_compact_serialization", "kid")}, (vfn, "query-kid"), "fallback query is not the protected header's kid: %s" % sorted(map(str, oo)))
-        kid = F.hir(ITEM + "::kid")
-        if r6.anchor(kid, "JwsValidationItem::kid"):
-            r6.require(any(f.endswith("JwsValidationItem::protected_header") for f in H.called_fns(H.root(kid))), (ITEM + "::kid", "protected"), "JwsValidationItem::kid does not read the protected header")
-        nonce = F.hir(ITEM + "::nonce")
-        if r6.anchor(nonce, "JwsValidationItem::nonce"):
-            r6.require(any(f.endswith("JwsValidationItem::protected_header") for f in H.called_fns(H.root(nonce))), (ITEM + "::nonce", "protected"), "JwsValidationItem::nonce does not read the protected header")
-        for c in H.calls(vh, CORE + "::resolve_method"):
-            a = H.call_args(c)
-            o = [H.origins(x, env, accessors=ACC) for x in a]
-            r6.site("resolve_method(self, query ← %s, scope ← %s)" % (sorted(map(str, o[1])), sorted(map(str, o[2]))), c["sp"])
-            r6.require(o[0] == {("param", "self")}, (vfn, "resolve-doc"), "the method is not resolved in this document")
-            r6.require(o[2] == {("param", "options", "method_scope")}, (vfn, "resolve-scope"), "resolve_method is not given options.method_scope")
-            r6.require(all(x[:3] == ("param", "options", "method_id") or x == ("call", "identity_jose::jws::decoder::Decoder::decode_compact_serialization", "kid") for x in o[1]) and len(o[1]) == 2, (vfn, "resolve-query"), "resolve_method is not given the selected query")
-        for c in H.calls(vh, ITEM + "::verify"):
-            a = H.call_args(c)
-            o = [H.origins(x, env, extra=re.compile(r"(resolve_method|::data|try_public_key_jwk)$")) for x in a]
-            r6.require(o[1] == {("param", "signature_verifier")}, (vfn, "verifier"), "the caller's verifier is not used")
-            r6.require(has(o[2], "param", "self") and all(x[:2] in (("param", "self"), ("param", "options")) or (x[0] == "call" and x[1].endswith("::kid")) for x in o[2]), (vfn, "key-source"), "the verifying key does not come from this document's resolved method: %s" % sorted(map(str, o[2])))
-            r6.site("validation_item.verify(signature_verifier, key of resolved method)", c["sp"])
-    # DIDUrlQuery::matches
+            for (a, c, _, _) in q.decisions:
+                if a[0] == "eq" and c is True and ONONCE in (a[1], a[2]):
+                    other = a[2] if a[1] == ONONCE else a[1]
+                    f_ = sym.fmt(other)
+                    if SR.derives(other, item) and other[:1] == ("field",) and other[2] == "nonce" and ("!Protected" in f_ or ".protected" in f_) and "!Unprotected" not in f_:
+                        ok = True
+            if not ok and SR.variant(q, ONONCE) == "None":
+                ok = all(v_ == "None" for t_, v_ in q.variant.items() if SR.derives(t_, item) and t_[:1] == ("field",) and t_[2] == "nonce") and \
+                    any(SR.derives(t_, item) and t_[:1] == ("field",) and t_[2] == "nonce" for t_ in q.variant) or SR.variant(q, ("field", item, "headers")) == "Unprotected"
+            r6.require(ok, (vfn, "nonce-eq"), "verify_jws can succeed without the full nonce equality having been established — path: %s" % q.describe()[:220])
+            rms = [e for e in q.calls(r"resolve_method$") if q.succeeded(e) is True]
+            if not r6.require(len(rms) == 1, (vfn, "resolve"), "expected one successful resolve_method on an accepting path"):
+                continue
+            doc, qry, scope = rms[0].args[:3]
+            r6.require(sym.term(doc) == SR.SELF, (vfn, "resolve-doc"), "the method is not resolved in this document")
+            r6.require(sym.term(scope) == SR.fld("method_scope", base=OPT), (vfn, "resolve-scope"), "resolve_method is not given options.method_scope")
+            if SR.variant(q, OMID) == "Some":
+                n_cfg += 1
+                r6.require(sym.term(qry) == ("payload", OMID, "Some", 0), (vfn, "query-some"), "configured method id not used: %r" % (qry,))
+            else:
+                n_kid += 1
+                f_ = sym.fmt(sym.term(qry))
+                r6.require(SR.variant(q, OMID) == "None" and SR.derives(qry, item) and "kid" in f_ and ("!Protected" in f_ or ".protected" in f_) and "!Unprotected" not in f_, (vfn, "query-kid"),
+                           "fallback query is not the protected header's kid: %s" % f_)
+            vs = [e for e in q.calls(r"JwsValidationItem::verify$") if q.succeeded(e) is True]
+            if r6.require(len(vs) == 1, (vfn, "returns"), "verify_jws does not succeed through JwsValidationItem::verify"):
+                v = vs[0]
+                r6.require(sym.term(v.args[0]) == item, (vfn, "verify-item"), "the item verified is not the decoded token")
+                r6.require(sym.term(v.args[1]) == SR.param("signature_verifier"), (vfn, "verifier"), "the caller's verifier is not used")
+                r6.require(SR.derives(v.args[2], rms[0].result.t) and "public_key_jwk" in sym.fmt(sym.term(v.args[2])), (vfn, "key-source"), "the verifying key does not come from the resolved method: %r" % (v.args[2],))
+                r6.require(SR.derives(q.ret, v.result.t), (vfn, "returns"), "verify_jws does not return the result of JwsValidationItem::verify")
+        r6.site("verify_jws: success guarded by validation_item.nonce() == options.nonce on %d accepting path(s)" % n)
+        r6.site("method query: configured id on %d path(s), protected kid on %d" % (n_cfg, n_kid))
+        r6.site("resolve_method(self, query, options.method_scope) ✓")
+        r6.site("validation_item.verify(signature_verifier, key of resolved method)")
+        r6.require((n_cfg > 0 and n_kid > 0) or not tab.paths, (vfn, "query-table"), "the method query is not selected between options.method_id and the protected kid")
+
     mfn = Q + "::matches"
     mh = F.hir(mfn)
     if r6.anchor(mh, mfn):
@@ -226,4 +223,4 @@ def verify_jws_rules(F, r6):
                 ro = H.origins(zipped["recv"], env, accessors=ACC) | H.origins(zipped["args"][0], env, accessors=ACC)
                 okf = okf and has(ro, "param", "self", "fragment") and has(ro, "param", "did_url", "fragment")
         r6.require(okf, (mfn, "fragment-eq"), "DIDUrlQuery::matches does not require both fragments to be present and equal")
-    r6.floor(7)
+    r6.floor(6)
